@@ -14,6 +14,7 @@ GROUPS = {
     "functiondef": c07.g_functiondef,
     "function_frame": c05.g_function_frame,
     "unparse_lambda": c03.GROUPS["kind:Lambda"],
+    "bounded:lambda-signatures": c03.g_lambda_signatures_bounded,
     "methods": c12.g_methods,
     "return": c07.g_return,
     "canary": c13.g_canary,
